@@ -203,6 +203,51 @@ fn main() {
                 f.write_all(serde_json::to_string(&summary).unwrap().as_bytes()).unwrap();
             }
         }
+        "wire-replay" => {
+            let v: Value = serde_json::from_str(&std::fs::read_to_string(args.get("file", "")).expect("replay file")).unwrap();
+            let s = all.iter().find(|s| s.name() == v["suite"].as_str().unwrap()).expect("suite");
+            let mut ctx = wire::WireCtx::new(s.as_ref(), v["seed"].as_u64().unwrap_or(0));
+            let input = hex::decode(v["input"].as_str().unwrap()).unwrap();
+            ctx.check_one(v["decoder"].as_str().unwrap(), &input, None, &json!({}));
+            if ctx.violations.is_empty() {
+                println!("NOT-REPRODUCED (decoder and specification agree on this input)");
+            } else {
+                println!("REPRODUCED {}", ctx.violations[0]);
+                std::process::exit(1);
+            }
+        }
+        "wire" => {
+            // C10 C11 C12: concretize the verdict table TLC emitted from Wire.tla
+            let sel = select_suites(&all, &args.get("suites", "quick"), seed);
+            let table = args.get("table", "");
+            let mut rows: HashMap<String, Vec<Value>> = HashMap::new();
+            let f = std::fs::File::open(&table).expect("table");
+            for line in std::io::BufReader::new(f).lines() {
+                let v: Value = serde_json::from_str(&line.unwrap()).unwrap();
+                rows.entry(v["suite"].as_str().unwrap().to_string()).or_default().push(v);
+            }
+            let fuzz_n = args.num("fuzz", 300) as usize;
+            let results: Vec<Value> = std::thread::scope(|sc| {
+                let hs: Vec<_> = sel.iter().map(|s| {
+                    let rows = &rows;
+                    sc.spawn(move || {
+                        let key = format!("{}/{}", s.oprf(), s.ke());
+                        let mut ctx = wire::WireCtx::new(*s, seed);
+                        let rs = rows.get(&key).map(|r| r.as_slice()).unwrap_or(&[]);
+                        for r in rs {
+                            ctx.check_row(r);
+                        }
+                        let table_evals = ctx.evals;
+                        ctx.fuzz(seed, fuzz_n);
+                        json!({"suite": s.name(), "rows": rs.len(), "table_evaluations": table_evals,
+                               "evaluations": ctx.evals, "accepted": ctx.accepted, "rejected": ctx.rejected,
+                               "violations": ctx.violations})
+                    })
+                }).collect();
+                hs.into_iter().map(|h| h.join().unwrap()).collect()
+            });
+            println!("{}", json!({"results": results}));
+        }
         "record" => {
             // direction B: drive the real code, write the trace for TLC
             let sel = select_suites(&all, &args.get("suites", "quick"), seed);
